@@ -8,6 +8,7 @@
 import Std.Data.HashMap
 import Hx.Spec.Chk
 import Hx.Scan.Dispatch
+import Hx.Build
 namespace Hx
 
 /-! ### text → structure -/
@@ -473,6 +474,20 @@ def judgeScan (st : JState) (caseLine : String) (ctoks otoks : List String) : JS
          mkFail "C06" false "validUtf8 differs from core::str::from_utf8" caseLine s!"real {otoks.headD ""} model {want}"])
     | none => (st.bump "badline", [s!"BADLINE {caseLine}"])
   | _ => (st.bump "badline", [s!"BADLINE {caseLine}"])
+
+/-- `buildenv <9 bits: std miri disable ge159 parsed disct flok sse42 avx2> <arch>` → the flags
+`Hx.Build.flags` predicts and the provider the generated cfg lattice selects -/
+def buildFlagsLine (l : String) : String :=
+  match words l with
+  | ["buildenv", bits, arch] =>
+    let b (i : Nat) : Bool := (bits.toList.getD i '0') == '1'
+    let a := if arch == "x86_64" then Gen.Cfg.Arch.x86_64 else if arch == "x86" then Gen.Cfg.Arch.x86
+             else if arch == "aarch64" then Gen.Cfg.Arch.aarch64 else Gen.Cfg.Arch.other
+    let env : Build.BuildEnv := ⟨b 0, b 1, b 2, b 3, b 4, b 5, b 6, b 7, b 8⟩
+    let f := Build.flags env a
+    let provs := (Gen.Cfg.providers.filter fun p => p.2 f).map (·.1)
+    s!"{l} => simd={f.simd} sse42={f.sse42} avx2={f.avx2} neon_intrinsics={f.neonIntr} providers={provs}"
+  | _ => s!"BADLINE {l}"
 
 def judgeLine (st : JState) (l : String) : JState × List String :=
   match splitArrow l with
